@@ -41,7 +41,7 @@ type c09Scen struct {
 	AddRoute bool        `json:"admin_adds_route"`
 }
 
-var c09URLs = []string{"/a/x", "/a/y", "/a/y/7", "/b/z", "/a/none"}
+var c09URLs = []string{"/a/x", "/a/y", "/a/y/7", "/b/z", "/a/none", "/a/y/7/", "/a/x/", "/a/y/7/extra/", "/a/y/"}
 
 func genC09(x *Ctx) *c09Scen {
 	tp := x.Tape
@@ -98,6 +98,25 @@ type c09World struct {
 }
 
 func c09Build(sc *c09Scen, byID map[int]*c09Req, extraRoute bool) *c09World {
+	return c09BuildOpt(sc, byID, extraRoute, true)
+}
+
+// c09Routable asks the routers themselves (no CORS filter involved) which methods a URL accepts:
+// a method is routable iff a plain request with it is answered neither 404 nor 405.
+func c09Routable(sc *c09Scen, byID map[int]*c09Req, extraRoute bool, path string) map[string]bool {
+	w := c09BuildOpt(sc, byID, extraRoute, false)
+	out := map[string]bool{}
+	for _, m := range []string{"GET", "POST", "PUT", "DELETE", "PATCH", "get", "OPTIONS", "HEAD"} {
+		sw := sim.NewSimWriter(nil)
+		Serve(w.c, EntryDispatch, sw, NewReq(m, path, nil, nil, 0, 0))
+		if st := sw.Status(); st != 404 && st != 405 {
+			out[m] = true
+		}
+	}
+	return out
+}
+
+func c09BuildOpt(sc *c09Scen, byID map[int]*c09Req, extraRoute bool, withCORS bool) *c09World {
 	c := restful.NewContainer()
 	if sc.Router == "jsr311" {
 		c.Router(restful.RouterJSR311{})
@@ -107,7 +126,9 @@ func c09Build(sc *c09Scen, byID map[int]*c09Req, extraRoute bool) *c09World {
 	if len(sc.Methods) == 0 {
 		cors.AllowedMethods = nil
 	}
-	c.Filter(cors.Filter) // by value, as documented
+	if withCORS {
+		c.Filter(cors.Filter) // by value, as documented
+	}
 	ev := func(s string) {
 		if r := byID[curReqID()]; r != nil && curVariant() == 0 {
 			r.events = append(r.events, s)
@@ -299,6 +320,42 @@ func runC09(x *Ctx) {
 				}
 			}
 		}
+		if len(sc.Methods) == 0 {
+			// (b') computed methods: "the methods routable at that URL in the container", asked from the
+			// routers directly; with an admin adding a route meanwhile either registration state counts
+			headersOK := true
+			if r.ACRH != "" {
+				for _, h := range strings.Split(r.ACRH, ",") {
+					h = strings.Trim(h, " ")
+					ok := false
+					for _, a := range sc.Headers {
+						if a == "*" || strings.EqualFold(a, h) {
+							ok = true
+						}
+					}
+					if !ok {
+						headersOK = false
+					}
+				}
+			}
+			granted := len(r.w.H["Access-Control-Allow-Methods"]) > 0
+			want := c09Routable(sc, byID, false, r.Path)[r.ACRM] && headersOK
+			want2 := want
+			if sc.AddRoute {
+				want2 = c09Routable(sc, byID, true, r.Path)[r.ACRM] && headersOK
+			}
+			if granted != want && granted != want2 {
+				x.Violate("computed-grant-differs-from-routable", "%s: granted=%v, but %s is routable at this URL: %v (headers allowed: %v)", what, granted, r.ACRM, want, headersOK)
+			}
+			if granted {
+				grants++
+			} else {
+				refusals++
+				if len(ac) > 0 {
+					x.Violate("preflight-wrongly-granted", "%s: refused (no Allow-Methods) but the response carries %v", what, ac)
+				}
+			}
+		}
 		// (c) the same preflight as the first request ever on a fresh filter and container; with an admin
 		// adding a route meanwhile, either registration state is acceptable
 		seqReq = r.ID
@@ -313,8 +370,8 @@ func runC09(x *Ctx) {
 		}
 	}
 	x.CountN("preflights", preflights)
-	x.CountN("preflight-grants-configured", grants)
-	x.CountN("preflight-refusals-configured", refusals)
+	x.CountN("preflight-grants", grants)
+	x.CountN("preflight-refusals", refusals)
 	if preflights >= 2 {
 		x.Count("reach:several-preflights-on-one-filter")
 	}
